@@ -362,7 +362,14 @@ def _last_per_instant(rows):
 def _check_rank(ta, rk, per_rank, inp, fails) -> int:
     df = ta.t.get_trace(rk)
     stab = ta.t.symbol_table.get_sym_table()
-    by_id = {int(i): (int(ts), int(s), stab[int(nm)], int(ic), int(du)) for i, ts, s, nm, ic, du in zip(df["index"], df["ts"], df["stream"], df["name"], df["index_correlation"], df["dur"])}
+    # the device activity launched by a host call is the one carrying the same correlation id IN THE FILE (the `correlation` column holds the file's value);
+    # the link column the loader computed is what the analysis relies on, so the oracle does not
+    dev_of_corr: Dict[int, int] = {}
+    for i_, s_, c_ in zip(df["index"], df["stream"], df["correlation"]):
+        if int(s_) != -1 and int(c_) >= 0 and int(c_) not in dev_of_corr:
+            dev_of_corr[int(c_)] = int(i_)
+    by_id = {int(i): (int(ts), int(s), stab[int(nm)], (dev_of_corr.get(int(c), 0) if int(s) == -1 and int(c) >= 0 else 0), int(du))
+             for i, ts, s, nm, c, du in zip(df["index"], df["ts"], df["stream"], df["name"], df["correlation"], df["dur"])}
     n = 0
     # queue length
     ql = ta.get_queue_length_time_series(ranks=[rk])
